@@ -77,6 +77,14 @@ func (w *World) BuildScript(ob *Obligation, forCVC5 bool) string {
 	var axText []string
 	included := map[string]bool{}
 	all := append(append([]smtAxiom(nil), bytesAxioms...), w.userAx...)
+	for _, u := range ob.Uses {
+		for _, la := range w.lemmaAx {
+			if la.name == "lemma:"+u {
+				la.syms = nil // always included
+				all = append(all, la)
+			}
+		}
+	}
 	for changed := ob.Expect != "sat" || ob.Kind == "canary"; changed; {
 		changed = false
 		for _, ax := range all {
@@ -219,7 +227,15 @@ func runSolverCtx(parent context.Context, sp solverSpec, script string, timeout 
 	if parent.Err() != nil {
 		return solveOut{sp.name, "cancelled", "", secs}
 	}
-	first := strings.TrimSpace(strings.SplitN(o, "\n", 2)[0])
+	first := ""
+	for _, l := range strings.Split(o, "\n") {
+		l = strings.TrimSpace(l)
+		if l == "" || strings.HasPrefix(l, "WARNING") || strings.HasPrefix(l, ";") || strings.Contains(l, "set-logic") || strings.Contains(l, "No set-logic") || strings.Contains(l, "cvc5 will make") || strings.Contains(l, "Consider setting") {
+			continue
+		}
+		first = l
+		break
+	}
 	ans := "error"
 	switch first {
 	case "sat", "unsat", "unknown", "timeout":
